@@ -201,6 +201,12 @@ def apply_fn_subs(unit, item, pc, subs_for_fn, fnargs, owner, canary):
             rsx.splice_loop(item, pc, int(sargs[0]), text, iter_name=lkv.get("iter", [None])[0])
         elif sk == "closure":
             pass
+        elif sk == "hoist":
+            # hoist <loop ordinal> "<literal>" as <name>
+            m = re.match(r'(\d+)\s+"(.*)"\s+as\s+(\w+)$', " ".join(sargs))
+            if not m:
+                raise ExtractError("bad hoist directive")
+            rsx.rule_hoist(item, pc, int(m.group(1)), m.group(2), m.group(3))
         elif sk in ("before", "after"):
             rsx.splice_before(item, pc, unq(" ".join(sargs[1:])), int(sargs[0]), text, after=(sk == "after"))
         else:
@@ -325,7 +331,7 @@ def build_unit(name, tpl_path, canary=False):
             pc = rsx.Pieces(src, item.start, item.end)
             rsx.rule_attrs(item, pc, keep_derive=set(",".join(kv.get("derive", [])).split(",")) - {""})
             if "fields" in kv:
-                rsx.project_fields(item, pc, set(",".join(kv["fields"]).split(",")))
+                rsx.project_fields(item, pc, set(",".join(kv["fields"]).split(",")) - {"-", ""})
             for lit in kv.get("drop", []):
                 rsx.drop_text(item, pc, unq(lit), "R-BOUND")
             if kv.get("attr"):
